@@ -9,7 +9,7 @@ HOOKS = dict(
 )
 
 ENGINES = [
-    dict(name="mirsym", path="lib/mirsym/sym.py", serves_properties=["C11"],
+    dict(name="mirsym", path="lib/mirsym/sym.py", serves_properties=["C09", "C11"],
          kind_free_text="MIR -> SMT symbolic execution of loop-free integer fragments (a closure body, a block range of a larger function): path enumeration over the nightly compiler's MIR of the real code, "
                         "u32 inputs as z3 bit-vectors, core integer / Option methods by their documented semantics, formatting calls recorded as events; each path's panic-freedom and post-condition is one z3 query over ALL input values; "
                         "satisfying assignments are replayed through the public API of the real crate (dev and release) before a violation is reported"),
@@ -55,6 +55,18 @@ CLAIMED = {
         design_ref="DESIGN.md §5 C06",
         text="Same scenarios and model as C05; decided: exactly one release_event by the time both endpoints are gone (none while the receiver is alive), no access to event memory after the release, and the release happens-after every access the other endpoint made (vector clocks under the orderings actually written: a weakened ordering or a missing fence yields a schedule). Found the genuine missing-acquire defect in sender_dropped_without_set (fixed, see known_findings.json). Bounded, not a proof.",
         note="Storage release is abstract (call sites, not the boxed/embedded/pooled bodies); pool and lake rental traffic is outside. Trusts rustc's MIR, the extraction tables, z3.",
+    ),
+    "C09": dict(
+        engine="mirsym",
+        technique="SMT symbolic execution (z3 bit-vectors) of block ranges of the real ProcessorSetBuilder::take, taken from the compiler's MIR, with containers abstracted to their lengths: one inductive step of the selection loop from an arbitrary state",
+        design_ref="DESIGN.md §4 C09",
+        text="Only the cardinality clause of C09 ('take(n) returns a set of exactly n processors, or nothing') is decided, and only for three of the five region policies, over ALL usize values (no unrolling; lengths <= 2^32): "
+             "policy Any - from the length test to the collected vector: None iff fewer than n candidates, otherwise exactly n; "
+             "policy PreferSame - one iteration of `while processors.len() < count` from an ARBITRARY state with processors.len() <= count and a visited region of arbitrary size >= 1: no panic, and the loop either exits with processors.len() == count, returns None (regions exhausted), or re-enters its head with processors.len() <= count (an inductive step: covers any number of regions); "
+             "policy RequireSame - the region filter closure keeps a region iff it has at least n candidates. Containers and rand sampling are replaced by their documented length contracts (evidence: assumptions). "
+             "This check found a genuine defect (PreferSame took min(n, region) from every further region: regions of 2 and 2 candidates with n = 3 gave 4 processors), reproduced through the public API on fake hardware and repaired by /repo commit d0196c3 (known_findings.json, fixed). "
+             "Membership, filters, exclusions, efficiency classes, distinctness, the region constraints themselves, quotas, take_all and the PreferDifferent / RequireDifferent arms are outside the claim (foldhash maps, pdqsort, VecDeque, rejection sampling and Arc-carrying records do not fit: probe P12). Complete over the integer values, partial over the property.",
+        note="Trusts rustc's MIR, the mirsym semantic table and the length contracts of Vec / VecDeque / HashMap / rand::sample stated in the evidence, z3. A thin slice of C09: cardinality bookkeeping only.",
     ),
     "C11": dict(
         engine="kani",
@@ -120,7 +132,6 @@ NOT_APPLICABLE = {
     "C19": "the only encodable slice is key validation (keys.rs), and it does not fit: validate_key parses every segment with std::path::Path::components; CBMC gave no verdict in 20 min for every 4-byte key over {a . /}, nor for 9 two-byte segments chosen from {aa, ..} (harness kept in kani/cbh_storage for reference); crash-point atomicity, byte-identical round trips and concurrent readers/writers go through tokio::fs, flate2 and the OS file system, which cannot be encoded",
     "C03": "wrapper pools (Arc<Mutex<..>>, Rc<RefCell<..>> + type-erased removers) exhaust 20-28 GB in CBMC even for {insert; drop handle} at capacity 2 (DESIGN.md P22); the Send/Sync clause is a trait-solver question, not an SMT query over the code",
     "C04": "the panic half needs unwinding (absent in Kani; catch_unwind even ICEs it) and the re-entrancy half needs the wrapper-pool shapes that do not fit (P22)",
-    "C09": "take/take_all run through foldhash maps, pdqsort, VecDeque, rejection-sampling RNG loops and Arc-carrying processor records; a 4-processor/2-region query used 30 GB for 20 min without a verdict (P12)",
     "C10": "OS scheduler affinity via sched_setaffinity/sched_getaffinity FFI and per-thread pin state in a thread_local with a destructor (P4): neither is encodable; the encodable mask construction is decided under C11",
     "C12": "every entry point goes through thread_local registries with destructors and thread::current() (unsupported pthread_key_create, P4); first-access races need OS threads",
     "C13": "region_cached/region_local sit on linked (P4), arc-swap thread-local debt lists, rsevents blocking waits and many_cpus; the protocol publishes heap values through ArcSwap, which the mirproto model cannot represent",
